@@ -16,6 +16,8 @@ import SuccinctlyVerif.Proof.BPSibling
 import SuccinctlyVerif.Proof.BPFast2
 import SuccinctlyVerif.Proof.BPSelect0
 import SuccinctlyVerif.Proof.BPSse3
+import SuccinctlyVerif.Proof.BPSelCS3
+import SuccinctlyVerif.Proof.BPWrap
 namespace SV.Props.C04
 open SV SV.BP SV.BPM
 
@@ -132,22 +134,23 @@ example : (construct true false [0xB#64] 6 (.csPoppy 3)).map (fun I => I.firstCh
 /-- `trees::find_close(words, len, p)` = the matching close of the open at `p` by the left-to-right
 excess scan over the first `len` bits; `none` for `p ≥ len`, a close at `p`, or no match. Covers the
 in-word kernel, the partial first word, skipping of whole words by `word_min_excess_i32` (byte
-tables) and the masked final word, for every `|ws| = ⌈len/64⌉` with any bits above `len`;
-`len < 2^31` so that the `i32` running excess cannot wrap. (Surplus whole words beyond
-`⌈len/64⌉` are outside this domain: finding F1.) -/
-theorem find_close_eq (ws : List (BitVec 64)) (len p : Nat) (hw : ws.length = (len + 63) / 64)
+tables) and the masked final word, for every `|ws| ≥ ⌈len/64⌉` — surplus whole words beyond
+`⌈len/64⌉` are allowed (finding F1, repaired: the scan stops at the first word lying wholly beyond
+`len`) — with any bits above `len`; `len < 2^31` so that the `i32` running excess cannot wrap. -/
+theorem find_close_eq (ws : List (BitVec 64)) (len p : Nat) (hw : (len + 63) / 64 ≤ ws.length)
     (hlen : len < 2 ^ 31) :
     freeFindClose ws.toArray len p = BP.findClose (bitsOf ws len) p :=
   BPC.freeFindClose_eq ws len p hw hlen
 
 example : freeFindClose #[0xFFFFFFFFFFFFFFCB#64] 6 0 = some 5 := by decide +kernel
 example : freeFindClose #[0xFFFFFFFF#64, 0x0#64] 96 0 = some 63 := by decide +kernel
+example : freeFindClose #[0x1#64, 0x0#64] 1 0 = none := by decide +kernel
 
 /-- `trees::find_open(words, len, p)` = the matching open of the close at `p` by the right-to-left
 scan; no bound on `len` is needed beyond `|ws| = ⌈len/64⌉` (the model's excess is unbounded here:
 for `len ≥ 2^31` the code's `i32` could wrap, which the statement does not cover — see the
 `freeFindOpen` model, which uses exact integers). -/
-theorem find_open_eq (ws : List (BitVec 64)) (len p : Nat) (hw : ws.length = (len + 63) / 64) :
+theorem find_open_eq (ws : List (BitVec 64)) (len p : Nat) (hw : (len + 63) / 64 ≤ ws.length) :
     freeFindOpen ws.toArray len p = BP.findOpen (bitsOf ws len) p :=
   BPS.freeFindOpen_eq ws len p hw
 
@@ -155,7 +158,7 @@ example : freeFindOpen #[0xFFFFFFFFFFFFFFCB#64] 6 5 = some 0 := by decide +kerne
 
 /-- `trees::enclose(words, len, p)` = the nearest enclosing open (parent) by the right-to-left scan,
 including the skipping of whole words by `word_max_excess_rev`. -/
-theorem enclose_eq (ws : List (BitVec 64)) (len p : Nat) (hw : ws.length = (len + 63) / 64)
+theorem enclose_eq (ws : List (BitVec 64)) (len p : Nat) (hw : (len + 63) / 64 ≤ ws.length)
     (hlen : len < 2 ^ 31) :
     freeEnclose ws.toArray len p = BP.enclose (bitsOf ws len) p :=
   BPS.freeEnclose_eq ws len p hw hlen
@@ -376,27 +379,60 @@ theorem storage_strays_variant_irrelevant_2 (simd simd' owned owned' : Bool) (ws
   rw [a.1, a.2, a'.1, a'.2, b.1, b.2, b'.1, b'.2, hbits]
   exact ⟨rfl, rfl⟩
 
-/-! ### operations not closed in this delivery (stated parts) -/
+/-! ### select1 -/
 
-/-- `select1` with `NoSelect` returns `None` for every `k` (documented: no select index; callers
-binary-search `rank1`). NOT PROVED in this delivery: `select1_eq` for `WithSelect` (sampled
-`SelectIndex<u32>` + `scan_select` + `select_in_word`) and `WithCsPoppy` (block samples at any rate,
-`partition_point` over `rank_l1`, the 9-bit offset walk) = `selectB true`; they are modelled
-(`BP.select1`) and compared with the spec by the driver on every request. -/
-theorem select1_noselect_partial (simd owned : Bool) (ws : List (BitVec 64)) (len : Nat) (k : Nat) (hlen : len < 2 ^ 32) :
-    (construct simd owned ws len .noSelect).map (fun I => I.select1 k) = some none := by
-  rw [construct_some simd owned ws len _ hlen, Option.map_some]
-  rfl
+/-- `select1(k)` for every select support: `NoSelect` returns `None` for every `k` (documented: no
+select index); `WithSelect` (sampled `SelectIndex<u32>` at rate 256: `jump_to`, `scan_select`,
+`select_in_word`) and `WithCsPoppy` at any rate (block samples, bracket, `partition_point` over
+`rank_l1` as core's binary search, 9-bit offset walk, `select_in_word`) return the position of the
+`k`-th open by the left-to-right scan, `None` for `k ≥` number of opens — for owned and borrowed
+storage, any stray bits above `len`, default and `simd` builds. `select_in_word` is the CTZ path;
+C02 (`select_ctz_eq`, `select_pdep_eq`, `select_paths_agree`) proves every dispatch path equal to
+it. -/
+theorem select1_eq (simd owned : Bool) (ws : List (BitVec 64)) (len : Nat) (k : SelKind) (j : Nat)
+    (hw : ws.length = (len + 63) / 64) (hlen : len < 2 ^ 32) :
+    (construct simd owned ws len k).map (fun I => I.select1 j) =
+      some (match k with
+        | .noSelect => none
+        | _ => BP.select1 (bitsOf ws len) j) := by
+  obtain ⟨h1, h2⟩ := stored_ok owned ws len hw
+  rw [construct_some simd owned ws len k hlen, Option.map_some]
+  cases k with
+  | noSelect => rfl
+  | withSelect => rw [BPR.select1_withSelect_eq simd _ len j h1 hlen, h2]; rfl
+  | csPoppy rate => rw [BPR.select1_csPoppy_eq simd _ len rate j h1 hlen, h2]; rfl
 
 example : (construct false true [0xB#64] 6 .noSelect).map (fun I => I.select1 0) = some none := by decide +kernel
+example : (construct false false [0xFFFFFFFFFFFFFFCB#64] 6 (.csPoppy 2)).map (fun I => I.select1 2) = some (some 3) := by
+  decide +kernel
+example : (construct true true [0xFFFFFFFFFFFFFFCB#64] 6 .withSelect).map (fun I => I.select1 3) = some none := by
+  decide +kernel
 
-/-- Full statement of the part of the property not proved in this delivery (a definition of the
-proposition, never asserted): `select1(k)` with a select index = position of the `k`-th open. -/
-def select1_eq_full_statement : Prop :=
-  ∀ (simd owned : Bool) (ws : List (BitVec 64)) (len rate : Nat) (withSelect : Bool) (j : Nat),
-    ws.length = (len + 63) / 64 → len < 2 ^ 32 →
-    (construct simd owned ws len (if withSelect then .withSelect else .csPoppy rate)).map (fun I => I.select1 j) =
-      some (BP.select1 (bitsOf ws len) j)
+/-! ### beyond `2^31` bits (finding F13)
 
+The constructors accept `len ≤ u32::MAX`, but `excess()`, `depth()` and `find_close_from` keep the
+excess in an `i32`. `excess_eq_wrap` shows `excess()` is exact whenever the true value is
+representable; the theorems about `depth`, `find_close`, `next_sibling`, `subtree_size`, `enclose`
+carry `len < 2^31`. For `2^31 ≤ len < 2^32` that side condition is necessary: -/
+
+/-- On `2^31` opens (a 256 MiB bitmap every constructor accepts) the depth of the last open is
+`2^31`, but `depth()` — `excess() as usize` through the wrapping `i32` — yields `2^64 − 2^31`. -/
+theorem depth_defect_beyond_i32 :
+    (construct false true (List.replicate 33554432 (BitVec.allOnes 64)) 2147483648 .noSelect).map
+        (fun I => I.depth 2147483647) = some (some 18446744071562067968) ∧
+    BP.depth (bitsOf (List.replicate 33554432 (BitVec.allOnes 64)) 2147483648) 2147483647 = some 2147483648 :=
+  BPR.depth_defect_beyond_i32
+
+/-- Mechanism of the false match of `find_close` beyond `2^31` opens: with the `i32` excess wrapped
+to `−2^31`, `excess + l2_min_excess` wraps to a positive value, the block is skipped without being
+searched and the branch `is_close(pos) && excess <= 1` — unreachable while the excess is exact
+(`find_close_from_eq`) — returns `pos`. One `CheckL2` step over an all-closes block. The end-to-end
+instance (`2^31` opens then closes: `find_close(0)` = `Some(2^31)`, expected `None`) is the manual
+replay `corpus/C04/finding-13-big.manual`. -/
+theorem find_close_false_match_mechanism :
+    fcfStep { words := #[0#64], len := 64, totalOnes := 0, l0 := #[(-64, -64)], l1 := #[(-64, -64)],
+              l2 := #[(-65536, -65536)], rankL1 := #[0], rankL2 := #[0], sel := Sel.none }
+      St.checkL2 (wrapI32 2147483648) 0 = Sum.inl (some 0) :=
+  BPR.checkL2_false_match
 
 end SV.Props.C04
